@@ -1,7 +1,39 @@
-(* C07 placeholder during construction *)
-From PD Require Import Base.Field Base.Matrix.
-Theorem C07_mmul_id_r :
-  forall (F : Type) (H : FieldOps F) (FL : FieldLaws F) n m (A : @mat F),
-    mmul n m m A (mid m) = canon n m A.
-Proof. intros. apply mmul_id_r. Qed.
-Print Assumptions C07_mmul_id_r.
+(* C07 -- the acceptance quantity equals the documented local error estimate. *)
+From Coq Require Import List Arith Reals.
+From PD Require Import Base.Field Base.Matrix Base.Solve Model.Gauss Model.Poly Model.Prior Model.Solver Model.Error
+  Proofs.ErrorProofs Proofs.CalibProofs.
+Import ListNotations.
+
+(* The number compared with one is norm ** (-1/rate) = (norm^2) ** (-1/(2 rate)):
+   accepting (>= 1) is exactly norm^2 <= 1.  (Real numbers: depends on the
+   standard-library real-number axioms.) *)
+Theorem C07_accept_iff_norm_le_one :
+  forall x rate : R, (0 < x)%R -> (0 < rate)%R ->
+    ((1 <= Rpower x (- 1 / (2 * rate)))%R <-> (x <= 1)%R).
+Proof. exact accept_iff_norm_le_1. Qed.
+
+Section C07.
+  Context {F : Type} `{FL : FieldLaws F}.
+
+  (* the estimate is computed from the previous MEAN only (any two previous
+     states with equal means give the same estimate, whatever their covariances) *)
+  Theorem C07_estimate_uses_previous_mean_only :
+    forall inv (cf : @config F) est (u1 u2 : list (@normal F)) t dt,
+      map n_mean u1 = map n_mean u2 ->
+      error_sq_components inv cf est u1 t dt = error_sq_components inv cf est u2 t dt.
+  Proof. exact error_estimate_uses_previous_mean_only. Qed.
+
+  (* base-scale invariance, the two facts it rests on: the local calibration
+     (whitened rms^2) divides by c when all covariances are multiplied by c ... *)
+  Theorem C07_local_calibration_divides_by_scale :
+    forall n cc c (rv : @normal F) (u : @mat F) x x',
+      c <> f0 ->
+      whitened_rms2 minv n cc rv u = Some x ->
+      whitened_rms2 minv n cc (mkN (n_mean rv) (mscale n n c (n_cov rv))) u = Some x' ->
+      x' = fdiv x c.
+  Proof. exact whitened_rms2_scale. Qed.
+End C07.
+
+Print Assumptions C07_accept_iff_norm_le_one.
+Print Assumptions C07_estimate_uses_previous_mean_only.
+Print Assumptions C07_local_calibration_divides_by_scale.
